@@ -55,6 +55,12 @@ CHECKS = {
  "C19": dict(cat="exploration", engine="D", technique="bounded-exhaustive differential enumeration against CPython's itertools/functools; tee() consumers by stateless exhaustive schedule exploration on the virtual loop",
    text="All 20 itertools functions and reduce: every element sequence over {0,1,2} up to length 3 (thorough 4) as list and as async iterable x every parameter from {-1,0,1,2,3,5,None} (including invalid ones) x fixed callback menus; result list or exception class must equal the stdlib's. tee(): 2-3 consumers x 1-3 elements with consumers and the async source released by gates placed at every scheduling point: every consumer sees the whole sequence, the source is pulled once per element.",
    note="Trusted: CPython 3.12 itertools/functools as reference (batched(strict=) and list-valued groupby against 6-line references); random longer inputs not sampled."),
+ "C17": dict(cat="fault_enumeration", engine="E", technique="exhaustive enumeration (ordered by number of deviations, capped per scenario) of the modelled transport's answers - chunk sizes per delivery and one truncation point at record-relative offsets - around real TLSStream/OpenSSL endpoints on the virtual loop",
+   text="Real TLSStream.wrap on both ends (real OpenSSL, TLS 1.2 and 1.3, standard_compatible on/off, message sizes 0..40000 in both directions at once, receive sizes 1/7/65536) over an in-memory pipe with fixed chunk policies {all,1,2,7} plus explorer-chosen short deliveries and one truncation inside any TLS record (handshake, data, close_notify); oracle: plaintext complete and in order without faults, chunk size 1..max_bytes, EndOfStream after a clean close, a truncated transport is never reported as clean EndOfStream when standard_compatible.",
+   note="Trusted: the in-memory pipe model (mc/envmodels.py MemPipe); OpenSSL is real. Quick tier caps each scenario at 250 executions in order of increasing deviation count (cap and completed deviation level are in the evidence)."),
+ "C18": dict(cat="fault_enumeration", engine="E", technique="exhaustive enumeration (deviation-bounded, capped per scenario) of environment events and answers of modelled endpoints - asyncio transport pair with kernel buffer / pause-resume, non-blocking socket pair with partial send/recv and readiness callbacks - around the real SocketStream / UNIXSocketStream code",
+   text="anyio's SocketStream(StreamProtocol) over a modelled asyncio transport pair (4-byte kernel buffer, write-buffer limit 0 => pause/resume_writing, data_received chunking, eof_received, connection_lost) and UNIXSocketStream over modelled non-blocking sockets (3-byte pipe, partial send, short recv, BlockingIOError, add_reader/add_writer readiness): message sizes 1..9 (> buffers), max_bytes 1/2/65536, slow reader, full duplex, send_eof/close, two tasks on one direction, use after local close; every order of enabled environment events at idle plus up to 2 (thorough 3) non-default answers per execution; oracle: received == sent, chunk size, EndOfStream / ClosedResourceError / BusyResourceError, no deadlock.",
+   note="Trusted: the endpoint models in mc/envmodels.py (the real kernel and uvloop are not explored; no real-socket conformance run is included)."),
 }
 
 def main():
@@ -85,6 +91,7 @@ def main():
         "engines": [
             {"name": "A", "path": "mc/vloop.py mc/explore.py mc/dsl.py", "serves_properties": [p for p in props if CHECKS.get(p, {}).get("engine") == "A"], "kind_free_text": "stateless DFS schedule explorer over a virtual asyncio loop"},
             {"name": "D", "path": "mc/families/c08_matrix.py mc/families/c19_itertools.py mc/families/c16_buffered.py", "serves_properties": [p for p in props if CHECKS.get(p, {}).get("engine") == "D"], "kind_free_text": "bounded-exhaustive enumeration of inputs / operation matrices against reference implementations"},
+            {"name": "E", "path": "mc/envmodels.py mc/vloop.py(EnvController)", "serves_properties": [p for p in props if CHECKS.get(p, {}).get("engine") == "E"], "kind_free_text": "engine A with modelled transports/sockets whose answers (chunking, partial I/O, truncation) are enumerated under a deviation bound"},
             {"name": "C", "path": "mc/bfs.py mc/nspec.py", "serves_properties": [p for p in props if CHECKS.get(p, {}).get("engine") == "C"], "kind_free_text": "explicit-state BFS over quiescent implementation states with reference automata"},
         ],
         "checks": checks,
